@@ -225,8 +225,7 @@ def systematic(prop_id, tier, rng, mp_mode, groups_idx, report, seen, stats):
                 for j in range(i, len(calls)):
                     combos.append((prop_id, g, sn, i, j, mp_mode, 60))
     rng.shuffle(combos)
-    if tier == "quick":
-        combos = combos[:70]
+    # every (start state, pair) combination in both tiers: the whole grid takes seconds on the pool
     with mp.get_context("fork").Pool(min(12, os.cpu_count() or 4)) as pool:
         results = pool.map(_systematic_unit, combos, chunksize=1)
     cfg = dict(depth=3, width=2, store_alg="SHA-256")
@@ -450,7 +449,7 @@ def run(prop_id, tier, seed, report, mp_mode=False):
                     "real threads on the real store under a controlled scheduler (scheduling points: every mutating "
                     "file-system primitive, every open for writing, every lock-list critical section, condition waits); "
                     "systematic single-cut schedules (one thread runs k steps, the other runs to completion, the "
-                    "first finishes; every k, both orders) for sampled (quick) or all (thorough) start-state x pair "
+                    "first finishes; every k, both orders) for all start-state x pair "
                     "combinations, random schedules with varying stickiness, and the scripted windows of the known findings; the "
                     "real schedule is replayed on the Lean interleaving model (results, final state must agree); "
                     "outcomes are judged against all sequential orders on the Lean specification; distinct = "
